@@ -4,6 +4,8 @@ import (
 	"bufio"
 	"bytes"
 	"fmt"
+	"os"
+	"runtime"
 	"strings"
 	"sync"
 	"sync/atomic"
@@ -86,8 +88,13 @@ func c13PlayerTCPorWS(c *kit.Ctx, srv *kit.Server, path, transport string, nreq 
 	var lastCSeq int64
 	var wmu sync.Mutex
 	wg.Add(1)
+	firstFrame := make(chan struct{})
 	go func() {
 		defer wg.Done()
+		select { // requests start once media is flowing, so that they overlap it
+		case <-firstFrame:
+		case <-time.After(5 * time.Second):
+		}
 		for i := 0; i < nreq; i++ {
 			m := "OPTIONS"
 			if i%3 == 1 {
@@ -127,6 +134,9 @@ func c13PlayerTCPorWS(c *kit.Ctx, srv *kit.Server, path, transport string, nreq 
 		}
 		if it.Frame != nil {
 			res.frames++
+			if res.frames == 1 {
+				close(firstFrame)
+			}
 			if it.Frame.Channel != vch && it.Frame.Channel != vch+1 && (ach < 0 || (it.Frame.Channel != ach && it.Frame.Channel != ach+1)) {
 				res.torn = fmt.Sprintf("frame on channel %d which was never negotiated", it.Frame.Channel)
 				break
@@ -159,10 +169,16 @@ func c13PlayerTCPorWS(c *kit.Ctx, srv *kit.Server, path, transport string, nreq 
 // ---- minimal WSP client (html5_rtsp_player protocol) ----
 
 type wspClient struct {
-	ctl, data *websocket.Conn
-	seq       int
-	channel   string
+	ctl, data  *websocket.Conn
+	seq        int
+	channel    string
+	maxLatency time.Duration
+	onSlow     func() // diagnostics: called when a response is outstanding for 5 s
 }
+
+// wspWrapTimeout is a watchdog, not an oracle: its expiry is INCONCLUSIVE / "no response" only after a time no
+// scheduling delay explains.
+var wspWrapTimeout = 120 * time.Second
 
 func wspDial(addr, path string) (*wspClient, error) {
 	d := websocket.Dialer{Subprotocols: []string{"control"}, HandshakeTimeout: 5 * time.Second}
@@ -219,8 +235,19 @@ func (w *wspClient) wrap(rtspReq []byte) (*kit.RTSPResp, string, error) {
 	if err := w.ctl.WriteMessage(websocket.TextMessage, []byte(msg)); err != nil {
 		return nil, "", err
 	}
-	w.ctl.SetReadDeadline(time.Now().Add(10 * time.Second))
+	t0 := time.Now()
+	w.ctl.SetReadDeadline(t0.Add(wspWrapTimeout))
+	var tm *time.Timer
+	if w.onSlow != nil {
+		tm = time.AfterFunc(5*time.Second, w.onSlow)
+	}
 	_, rm, err := w.ctl.ReadMessage()
+	if tm != nil {
+		tm.Stop()
+	}
+	if d := time.Since(t0); d > w.maxLatency {
+		w.maxLatency = d
+	}
 	if err != nil {
 		return nil, "", err
 	}
@@ -253,14 +280,19 @@ func (w *wspClient) close() {
 	}
 }
 
-func c13PlayerWSP(c *kit.Ctx, srv *kit.Server, path string, nreq int, stopPub *int32) c13result {
-	var res c13result
+func c13PlayerWSP(c *kit.Ctx, srv *kit.Server, path string, nreq int, stopPub *int32) (res c13result) {
 	w, err := wspDial(srv.Addr, path)
 	if err != nil {
 		res.torn = "wsp dial: " + err.Error()
 		return res
 	}
 	defer w.close()
+	if os.Getenv("VERIF_KEEP") != "" {
+		w.onSlow = func() {
+			buf := make([]byte, 8<<20)
+			os.WriteFile(fmt.Sprintf("%s/slow-%d-%d.txt", c.OutDir, c.Shard, time.Now().UnixNano()), buf[:runtime.Stack(buf, true)], 0o644)
+		}
+	}
 	cl := &kit.RTSPClient{}
 	do := func(m, uri string, hdr map[string]string) (*kit.RTSPResp, error) {
 		r, raw, err := w.wrap(cl.BuildRequest(m, uri, hdr, ""))
@@ -319,10 +351,54 @@ func c13PlayerWSP(c *kit.Ctx, srv *kit.Server, path string, nreq int, stopPub *i
 			dmu.Unlock()
 		}
 	}()
+	// session churn: other WSP sessions on the same stream come and go while this one plays (sessions that end are
+	// what returns pooled response/frame buffers; their messages are checked like ours)
+	churnStop := make(chan struct{})
+	churnDone := make(chan struct{})
+	var churnViol []string
+	churned := 0
+	go func() {
+		defer close(churnDone)
+		for {
+			select {
+			case <-churnStop:
+				return
+			default:
+			}
+			cw, err := wspDial(srv.Addr, path)
+			if err != nil {
+				time.Sleep(5 * time.Millisecond)
+				continue
+			}
+			ccl := &kit.RTSPClient{}
+			for k := 0; k < 6; k++ {
+				if _, raw, err := cw.wrap(ccl.BuildRequest("OPTIONS", base, nil, "")); err != nil {
+					if strings.Contains(err.Error(), "is not one complete WSP response") || strings.Contains(err.Error(), "does not carry exactly one") || strings.Contains(err.Error(), "extra bytes") {
+						churnViol = append(churnViol, fmt.Sprintf("churn session: %v (%q)", err, raw[:min(200, len(raw))]))
+					}
+					break
+				}
+			}
+			cw.close()
+			churned++
+		}
+	}()
+	defer func() {
+		close(churnStop)
+		<-churnDone
+		dmu.Lock()
+		res.wsViol = append(res.wsViol, churnViol...)
+		dmu.Unlock()
+		c.Count("wsp_churn_sessions", int64(churned))
+	}()
 	for i := 0; i < nreq; i++ {
 		m := []string{"OPTIONS", "PLAY", "PAUSE", "PLAY"}[i%4]
 		r, err := do(m, base, nil)
 		if err != nil {
+			if strings.Contains(err.Error(), "i/o timeout") && os.Getenv("VERIF_KEEP") != "" {
+				buf := make([]byte, 8<<20)
+				os.WriteFile(fmt.Sprintf("%s/stall-%d-%s-%d.txt", c.OutDir, c.Shard, m, i), buf[:runtime.Stack(buf, true)], 0o644)
+			}
 			res.torn = "control channel: " + err.Error()
 			break
 		}
@@ -332,6 +408,7 @@ func c13PlayerWSP(c *kit.Ctx, srv *kit.Server, path string, nreq int, stopPub *i
 		res.responses++
 	}
 	res.requests = nreq
+	c.SetAdd("wsp_max_response_latency_bucket", latencyBucket(w.maxLatency))
 	atomic.StoreInt32(stopPub, 1)
 	w.data.Close()
 	<-done
@@ -370,6 +447,7 @@ func runC13(c *kit.Ctx) {
 		pdone := make(chan struct{})
 		go func() {
 			defer close(pdone)
+			burst := 0
 			for i := 0; atomic.LoadInt32(&stopPub) == 0 && i < 200000; i++ {
 				size := sz[0] + rng.Intn(sz[1]-sz[0]+1)
 				if pub.WriteFrame(0, c13Frame(i, size)) != nil {
@@ -382,8 +460,15 @@ func runC13(c *kit.Ctx) {
 					}
 				}
 				atomic.AddInt64(&published, 1)
-				if i%50 == 0 {
-					time.Sleep(200 * time.Microsecond)
+				// paced, not flat out: the oracle needs responses interleaved with frames, not throughput, and 16
+				// shards pushing gigabytes through the race detector starve each other into watchdog expiries
+				// (<= 50 000 frames/s and <= 32 MB/s per shard)
+				burst += size
+				if burst >= 256<<10 {
+					burst = 0
+					time.Sleep(8 * time.Millisecond)
+				} else if i%50 == 0 {
+					time.Sleep(time.Millisecond)
 				}
 			}
 		}()
@@ -433,4 +518,22 @@ func runC13(c *kit.Ctx) {
 		}
 	}
 	c.Note("hook_hits", kit.H.HitCounts())
+}
+
+func latencyBucket(d time.Duration) string {
+	switch {
+	case d < 100*time.Millisecond:
+		return "<100ms"
+	case d < time.Second:
+		return "<1s"
+	case d < 5*time.Second:
+		return "<5s"
+	case d < 10*time.Second:
+		return "<10s"
+	case d < 30*time.Second:
+		return "<30s"
+	case d < 60*time.Second:
+		return "<60s"
+	}
+	return ">=60s"
 }
